@@ -55,7 +55,7 @@ type interpreter struct {
 	maxDepth        int
 	concretisations int
 	violations      []Violation
-	notes           []string
+	notes           []noteRec
 	assertsSeen     map[string]int
 	assertQueries   int
 	inconclusive    []string
@@ -84,6 +84,7 @@ type interpreter struct {
 	curFrame    *frame
 	lastPanicAt string
 	inStdInit   bool
+	pendingMsg  *noteRec
 	known       map[int]uint64
 	knownMemo   map[int]*Term
 }
@@ -428,7 +429,7 @@ func (i *interpreter) runPath(s seed) (res PathResult) {
 	defer func() {
 		i.rollback()
 		res.Tape = i.tape()
-		res.Notes = i.notes
+		res.Notes = i.renderNotes(i.model)
 		res.Steps = i.steps
 	}()
 	defer func() {
@@ -440,7 +441,7 @@ func (i *interpreter) runPath(s seed) (res PathResult) {
 		case pathAbort:
 			res = PathResult{Status: p.kind, Msg: p.msg}
 			if p.kind == "budget" {
-				i.violations = append(i.violations, Violation{ID: "unwind", Msg: p.msg, Tape: i.tape(), Notes: i.notes, Harness: i.ex.cfg.Harness, PathLen: len(i.decisions)})
+				i.violations = append(i.violations, Violation{ID: "unwind", Msg: p.msg, Tape: i.tape(), Notes: i.renderNotes(i.model), Harness: i.ex.cfg.Harness, PathLen: len(i.decisions)})
 			}
 		case engineBug:
 			res = PathResult{Status: "enginebug", Msg: p.msg}
@@ -455,7 +456,7 @@ func (i *interpreter) runPath(s seed) (res PathResult) {
 				}
 			}
 			res = PathResult{Status: "panic", Msg: msg}
-			i.violations = append(i.violations, Violation{ID: "panic", Msg: msg, Tape: i.tape(), Notes: i.notes, Harness: i.ex.cfg.Harness, PathLen: len(i.decisions)})
+			i.violations = append(i.violations, Violation{ID: "panic", Msg: msg, Tape: i.tape(), Notes: i.renderNotes(i.model), Harness: i.ex.cfg.Harness, PathLen: len(i.decisions)})
 		}
 	}()
 	call(i, nil, 0, i.ex.fn, nil)
@@ -718,5 +719,42 @@ func (i *interpreter) violation(id, msg string, tape []uint64) {
 	if len(i.violations) > 20 {
 		return
 	}
-	i.violations = append(i.violations, Violation{ID: id, Msg: msg, Tape: tape, Notes: append([]string(nil), i.notes...), Harness: i.ex.cfg.Harness, PathLen: len(i.decisions)})
+	if i.pendingMsg != nil && msg == "" {
+		saved := i.notes
+		i.notes = []noteRec{*i.pendingMsg}
+		if r := i.renderNotes(tape); len(r) == 1 {
+			msg = r[0]
+		}
+		i.notes = saved
+	}
+	i.violations = append(i.violations, Violation{ID: id, Msg: msg, Tape: tape, Notes: i.renderNotes(tape), Harness: i.ex.cfg.Harness, PathLen: len(i.decisions)})
+}
+
+// noteRec is an observation recorded by vx.Notef; it is rendered at the end of
+// the path (or for a counterexample) under the relevant model.
+type noteRec struct {
+	format string
+	args   []value
+}
+
+func (i *interpreter) renderNotes(model []uint64) []string {
+	if len(i.notes) == 0 {
+		return nil
+	}
+	savedModel, savedMemo := i.model, i.evalMemo
+	i.model, i.evalMemo = model, map[int]uint64{}
+	defer func() { i.model, i.evalMemo = savedModel, savedMemo }()
+	out := make([]string, 0, len(i.notes))
+	for _, n := range i.notes {
+		c := &fmtCtx{i: i, fr: nil, evalModel: true}
+		func() {
+			defer func() {
+				if r := recover(); r != nil {
+					out = append(out, fmt.Sprintf("<note render failed: %v>", r))
+				}
+			}()
+			out = append(out, fmt.Sprintf(n.format, c.args(n.args)...))
+		}()
+	}
+	return out
 }
